@@ -1,0 +1,35 @@
+//go:build verif
+
+package evidence
+
+import (
+	"github.com/kardiachain/go-kardia/lib/p2p"
+	"github.com/kardiachain/go-kardia/types"
+)
+
+// Add-only accessors for the out-of-tree verification harness (/verif, family `evidence`, property C19).
+// They expose what the evidence reactor and the pool do internally so that the harness can drive the
+// same code paths without a p2p switch: nothing here changes behaviour.
+
+// VerifIsPending reports whether the pool's database holds ev under the pending prefix.
+func (evpool *Pool) VerifIsPending(ev types.Evidence) bool { return evpool.isPending(ev) }
+
+// VerifIsCommitted reports whether the pool's database marks ev as committed.
+func (evpool *Pool) VerifIsCommitted(ev types.Evidence) bool { return evpool.isCommitted(ev) }
+
+// VerifVerify runs the pool's full verification of ev against its current state (no side effects).
+func (evpool *Pool) VerifVerify(ev types.Evidence) error { return evpool.verify(ev) }
+
+// VerifIsExpired is the pool's own expiry test (height and time of the evidence against the pool's state).
+func (evpool *Pool) VerifIsExpired(ev types.Evidence) bool {
+	return evpool.isExpired(ev.Height(), ev.Time())
+}
+
+// VerifEncodeMsg / VerifDecodeMsg are the wire codec of the evidence channel (decode includes ValidateBasic).
+func VerifEncodeMsg(evis []types.Evidence) ([]byte, error) { return encodeMsg(evis) }
+func VerifDecodeMsg(bz []byte) ([]types.Evidence, error)   { return decodeMsg(bz) }
+
+// VerifPrepare is the reactor's decision whether (and what) to send to a peer for one list element.
+func (evR *Reactor) VerifPrepare(peer p2p.Peer, ev types.Evidence) []types.Evidence {
+	return evR.prepareEvidenceMessage(peer, ev)
+}
